@@ -1,0 +1,127 @@
+//! Verification hooks (compiled only with `--cfg rs_store_verif`).
+//!
+//! This module contains plumbing only: a hook point reports *where* the calling thread is
+//! (`kind`), for which store / object, and optionally a description of the value at hand.
+//! What happens with a point (log it, park the thread until a scheduler releases it) is decided
+//! by the `Tracer` that a verification harness installs. Without a tracer a point costs one
+//! atomic load.
+use std::any::Any;
+use std::sync::atomic::{AtomicBool, AtomicUsize, Ordering};
+use std::sync::{Arc, RwLock};
+
+/// One hook point reached by the current thread.
+pub struct Point {
+    /// name of the hook point, e.g. "send.begin"
+    pub kind: &'static str,
+    /// identity of the store (address of its metrics object), 0 if unknown
+    pub store: usize,
+    /// identity of the object concerned (channel id, task id), 0 if none
+    pub obj: usize,
+    /// description of the value at hand (by the installed describer)
+    pub data: Option<String>,
+    /// a small number whose meaning depends on the kind
+    pub n: i64,
+}
+
+/// Receiver of hook points; `point` may block, which is how a scheduler gates threads.
+pub trait Tracer: Send + Sync {
+    fn point(&self, p: Point);
+}
+
+static ENABLED: AtomicBool = AtomicBool::new(false);
+static TRACER: RwLock<Option<Arc<dyn Tracer>>> = RwLock::new(None);
+static DESCRIBER: RwLock<Option<fn(&dyn Any) -> Option<String>>> = RwLock::new(None);
+static NEXT_ID: AtomicUsize = AtomicUsize::new(1);
+
+/// install a tracer, all hook points are reported to it from now on
+pub fn install(t: Arc<dyn Tracer>) {
+    *TRACER.write().unwrap_or_else(|e| e.into_inner()) = Some(t);
+    ENABLED.store(true, Ordering::SeqCst);
+}
+
+/// remove the tracer
+pub fn uninstall() {
+    ENABLED.store(false, Ordering::SeqCst);
+    *TRACER.write().unwrap_or_else(|e| e.into_inner()) = None;
+}
+
+/// install the function that turns values (actions, channel items) into text
+pub fn set_describer(f: fn(&dyn Any) -> Option<String>) {
+    *DESCRIBER.write().unwrap_or_else(|e| e.into_inner()) = Some(f);
+}
+
+/// a fresh identity (channels, tasks)
+pub fn next_id() -> usize {
+    NEXT_ID.fetch_add(1, Ordering::SeqCst)
+}
+
+/// identity of a store: the address of its metrics object
+pub fn store_id<T: ?Sized>(metrics: &Arc<T>) -> usize {
+    Arc::as_ptr(metrics) as *const () as usize
+}
+
+/// identity of a store seen from a channel
+pub fn store_id_opt<T: ?Sized>(metrics: &Option<Arc<T>>) -> usize {
+    match metrics {
+        Some(m) => store_id(m),
+        None => 0,
+    }
+}
+
+/// report a hook point
+pub fn pt(kind: &'static str, store: usize, obj: usize, data: Option<String>, n: i64) {
+    if !ENABLED.load(Ordering::SeqCst) {
+        return;
+    }
+    let tracer = TRACER.read().unwrap_or_else(|e| e.into_inner()).clone();
+    if let Some(t) = tracer {
+        t.point(Point {
+            kind,
+            store,
+            obj,
+            data,
+            n,
+        });
+    }
+}
+
+/// describe a value with the installed describer
+pub fn desc<T: 'static>(x: &T) -> Option<String> {
+    if !ENABLED.load(Ordering::SeqCst) {
+        return None;
+    }
+    let f = *DESCRIBER.read().unwrap_or_else(|e| e.into_inner());
+    match f {
+        Some(f) => f(x as &dyn Any),
+        None => None,
+    }
+}
+
+/// reports "task.end" when a pool job ends, also while unwinding
+pub struct TaskGuard {
+    pub store: usize,
+    pub tid: usize,
+}
+
+impl Drop for TaskGuard {
+    fn drop(&mut self) {
+        pt(
+            "task.end",
+            self.store,
+            self.tid,
+            None,
+            std::thread::panicking() as i64,
+        );
+    }
+}
+
+/// describe a channel item: "exit" for the exit marker, the describer's text for a payload
+pub(crate) fn desc_op<T>(x: &crate::store_impl::ActionOp<T>) -> Option<String>
+where
+    T: Send + Sync + Clone + 'static,
+{
+    match x {
+        crate::store_impl::ActionOp::Action(a) => desc(a),
+        crate::store_impl::ActionOp::Exit(_) => Some("\"exit\"".to_string()),
+    }
+}
